@@ -584,18 +584,22 @@ func run(c Case) *vkit.Result {
 			res.Label("form-action-neutralised")
 			continue
 		}
-		matched := ""
+		// several candidates can denote the same target (a fragment-mode response replaces the fragment of the URI): the
+		// response is judged against the most favourable one - it is indistinguishable from a delivery to that URI
+		matched, v, why := "", -2, ""
 		for _, cand := range candidates {
-			if sameTarget(target, cand) {
-				matched = cand
-				break
+			if !sameTarget(target, cand) {
+				continue
+			}
+			cv, cwhy := allowed(&cl, cand, c.ResponseType)
+			if cv > v {
+				matched, v, why = cand, cv, cwhy
 			}
 		}
-		if matched == "" {
+		if v == -2 {
 			res.Fail("C03:redirect-to-unrequested", "response %d sends the user agent to %q, which is neither the login UI nor the requested redirect_uri %q", i, target, candidates)
 			continue
 		}
-		v, why := allowed(&cl, matched, c.ResponseType)
 		if !clientKnown {
 			v, why = -1, "no-client"
 		}
